@@ -1,12 +1,13 @@
 #!/usr/bin/env python3
 """Runs the repository test-suite (hooks off: there are none) and checks every BASELINE stable_pass test passes."""
 import json, subprocess, sys, tempfile, os, xml.etree.ElementTree as ET
+TREE = os.environ.get('BASE_TREE', '/repo')  # a scratch worktree when judging a seeded change
 base = json.load(open('/root/.vp/BASELINE.json'))
 want = set(base['stable_pass'])
 out = tempfile.mktemp(suffix='.xml')
 cmd = ['/venv/bin/python', '-m', 'pytest', '-q', '-p', 'no:cacheprovider', '--timeout=900', '--continue-on-collection-errors',
        f'--junitxml={out}'] + (['-n', sys.argv[1]] if len(sys.argv) > 1 else [])
-subprocess.run(cmd, cwd='/repo', stdout=subprocess.DEVNULL, stderr=subprocess.DEVNULL, env={**os.environ, 'PYTHONPATH': '/repo/src'})
+subprocess.run(cmd, cwd=TREE, stdout=subprocess.DEVNULL, stderr=subprocess.DEVNULL, env={**os.environ, 'PYTHONPATH': TREE + '/src'})
 passed = set()
 for tc in ET.parse(out).getroot().iter('testcase'):
     if not any(c.tag in ('failure', 'error', 'skipped') for c in tc):
